@@ -114,6 +114,8 @@ def get(path, seq: SeqV, idx):
         if ek is None:
             raise Unsupported("symbolic index into heterogeneous sequence")
     r = select(seq, z3.simplify(it))
+    if seq.kind in ("bytes", "bytearray") and isinstance(r, Sym):
+        path.fact(z3.And(r.t >= 0, r.t <= 255))
     return _as_elem(seq, r)
 
 
